@@ -121,7 +121,17 @@ func main() {
 	out := flag.String("out", "", "output directory for Hts/Gen (required)")
 	facts := flag.String("facts", "", "facts.json output path")
 	panics := flag.String("panics", "", "panic-site inventory output path (C11); with no -out, only the inventory is written")
+	fhashes := flag.String("funchashes", "", "function-hash list output path; with no -out, only this is written")
 	flag.Parse()
+	if *fhashes != "" {
+		if err := writeFuncHashes(*repo, *fhashes); err != nil {
+			fmt.Fprintln(os.Stderr, "extract: function hashes:", err)
+			os.Exit(2)
+		}
+		if *out == "" && *panics == "" {
+			return
+		}
+	}
 	if *panics != "" {
 		if err := writePanicInventory(*repo, *panics); err != nil {
 			fmt.Fprintln(os.Stderr, "extract: panic inventory:", err)
